@@ -97,11 +97,14 @@ fn judge_inner(b: &[u8], t: &mut Tape, log: &mut Option<&mut Vec<String>>) -> Re
     let parsed = match guarded(|| Compound::parse(b)) {
         Ok(r) => r,
         Err(p) => {
-            if let Some(tl) = &reference {
-                v.violation = Some(("Accept:tileable_not_accepted".into(), format!("Compound::parse unwound ({} at {}) on {} bytes that the length chain partitions into {} packets", p.msg, p.short_loc(), b.len(), tl.len())));
-                return Ok(v);
-            }
-            return Err(());
+            // Compound::parse decides acceptance; unwinding decides nothing.  For an input the length
+            // chain partitions this contradicts the statement outright; for any other input the
+            // statement wants it turned down, which an unwind is not either.
+            v.violation = Some(match &reference {
+                Some(tl) => ("Accept:tileable_not_accepted".into(), format!("Compound::parse unwound ({} at {}) on {} bytes that the length chain partitions into {} packets", p.msg, p.short_loc(), b.len(), tl.len())),
+                None => ("Accept:undecided".into(), format!("Compound::parse neither accepted nor rejected {} bytes: it unwound ({} at {})", b.len(), p.msg, p.short_loc())),
+            });
+            return Ok(v);
         }
     };
     v.accepted = parsed.is_ok();
@@ -420,7 +423,7 @@ impl Check for C11 {
         vec![
             "exhaustive in the single-fault dimension per base compound, sampled in bases, double faults and reader histories".into(),
             "per-tile oracle is Packet::parse on the reference tile, because the property defines iteration in terms of it; items are compared through their Debug rendering (Packet has no PartialEq)".into(),
-            "an unwind of Compound::parse on an input the length chain partitions, or of the iterator when Packet::parse returns normally on every tile, is a violation here (it did not accept / did not yield); any other unwind is C01's finding and is counted as inconclusive".into(),
+            "an unwind of Compound::parse itself (it decided nothing), or of the iterator when Packet::parse returns normally on every tile, is a violation here (it did not accept / did not yield); any other unwind is C01's finding and is counted as inconclusive".into(),
         ]
     }
     fn components(&self) -> J {
